@@ -262,10 +262,10 @@ func c08Containers() *core.Space {
 					return []interface{}{v}
 				}
 				targets := []struct {
-					name       string
-					t          interface{}
-					listA      bool
-					listB      bool
+					name  string
+					t     interface{}
+					listA bool
+					listB bool
 				}{
 					{"struct{A,B interface{}}", &sII{}, false, false},
 					{"struct{A,B []interface{}}", &sLL{}, true, true},
